@@ -143,8 +143,10 @@ package dns
 //@   modifies H.RR_Header.Ttl.v
 
 // IsEdns0: the last OPT record of the additional section (RFC 6891 6.1.1 allows it anywhere), nil when there is none
-//@ func (*Msg).IsEdns0 [C01 C09]
+//@ func (*Msg).IsEdns0 [C01 C09 C16]
 //@   opt no-safety
+// looking for the OPT record changes nothing (Pack, String and Len call it)
+//@   pure
 //@   requires dns != nil
 //@   ensures none: ret0 == nil ==> (forall k in 0..len(dns.Extra) :: hdr(dns.Extra[k]).Rrtype != 41)
 //@   exit found: ret0 != nil ==> 0 <= i && i < len(dns.Extra) && hdr(dns.Extra[i]).Rrtype == 41 && asptr(dns.Extra[i], OPT) == ret0
